@@ -6,7 +6,8 @@
      utf8_enc, E      standard UTF-8 of a scalar value / of a list of them
      codec_ok enc dec the libc codec (c32rtomb, mbrtoc32) is standard UTF-8 on every scalar value
      repr s cs        the ddpstring s is well formed (cap = byte length + 1, one terminator, valid
-                      UTF-8, empty text = {NULL,0}) and holds exactly the code points cs
+                      UTF-8; the empty text is {NULL,0} or the allocated {"\0",1} that C producers of
+                      the stdlib return) and holds exactly the code points cs
      rres r e         the result r of a runtime producer matches the specification result e:
                       both a Laufzeitfehler, or r = Ok s, e = Ok cs and repr s cs
      s_index, s_replace, s_slice, ++, list_eqb   the operations on code-point lists
@@ -101,6 +102,27 @@ Proof.
 Qed.
 Print Assumptions C12_equal.
 
+(* the empty Text has two representations, {NULL,0} (literal, every runtime operation) and the allocated
+   {"\0",1} (C producers of the stdlib: env.c, string_builder.c, filesystem.c, strings.c ...): both are
+   well formed with no code points, every theorem of this file covers both (repr admits both), and in
+   particular they are equal to each other in both operand orders.  The definition before the fix
+   (Rt/StrOld.v: memcmp over str1->cap bytes) read through NULL when the allocated one came first. *)
+Theorem C12_two_empty_texts :
+  repr owned_empty [] /\ repr empty_string [] /\
+  (forall s, repr s [] -> s = empty_string \/ s = owned_empty) /\
+  string_equal false owned_empty empty_string = Ok true /\
+  string_equal false empty_string owned_empty = Ok true /\
+  string_equal_old false owned_empty empty_string = OOB /\
+  string_equal_old false empty_string owned_empty = Ok true.
+Proof.
+  exact (conj repr_owned_empty (conj repr_empty (conj repr_nil
+    (conj (proj1 (proj2 (proj2 (proj2 (proj2 old_equal_empty_refuted)))))
+    (conj (proj2 (proj2 (proj2 (proj2 (proj2 old_equal_empty_refuted)))))
+    (conj (proj1 (proj2 (proj2 old_equal_empty_refuted)))
+          (proj1 (proj2 (proj2 (proj2 old_equal_empty_refuted)))))))))).
+Qed.
+Print Assumptions C12_two_empty_texts.
+
 (* `Für jeden Buchstaben b in t` visits the code points in order *)
 Theorem C12_iterate : forall enc dec, codec_ok enc dec ->
   forall s cs, repr s cs -> string_iterate dec s = Ok cs.
@@ -143,7 +165,7 @@ Print Assumptions C12_history_refines.
    well-formed text; the capacity hypotheses of Props/C06.v are consequences of repr.
    of_option: Some v -> Ok v, None -> Laufzeitfehler;  of_slice: SliceOk l -> Ok l, SliceError -> Laufzeitfehler *)
 Theorem C12_repr_gives_C06_capacity_hypotheses : forall s cs, repr s cs ->
-  (cs <> [] -> Z.of_nat (length cs) + 1 <= cap s) /\ (cs = [] -> cap s = 0).
+  (cs <> [] -> Z.of_nat (length cs) + 1 <= cap s) /\ (cs = [] -> cap s = 0 \/ cap s = 1).
 Proof. exact repr_cap_bounds. Qed.
 Print Assumptions C12_repr_gives_C06_capacity_hypotheses.
 
@@ -172,7 +194,7 @@ Theorem C12_old_replace_shorter_refuted :
     replace_char_in_string_old glibc_enc s ch i = Ok s' /\ ~ wf s' /\
     (r <- string_string_verkettet s' (mkstr [88; 0] 2) ;; print_text r) = Ok (E [97; 98]) /\
     string_iterate glibc_dec s' = Stuck /\
-    string_equal false s' (mkstr [97; 98; 0] 3) = OOB /\
+    string_equal_old false s' (mkstr [97; 98; 0] 3) = OOB /\
     replace_char_in_string glibc_enc s ch i = Ok (mkstr [97; 98; 0] 3).
 Proof. exact old_replace_shorter_refuted. Qed.
 Print Assumptions C12_old_replace_shorter_refuted.
@@ -215,11 +237,11 @@ Example C12_operations_nonvacuous :
 Proof. repeat split; vm_compute; reflexivity. Qed.
 Definition sample_history : list op :=
   [OLit 0 (E sample_text); OReplace 0 8364 2; OReplace 0 97 3; OSlice 1 0 2 3; OConcatSC 1 1 0; OConcatCS 1 55296 1; OConcat 2 1 0; OConcatSC 3 2 128512;
-   OEqual 0 2; OIndex 3 2; OIter 3; OIndex 3 99].
+   OEmptyOwned 1; OLit 2 []; OEqual 1 2; OConcat 1 1 0; OEqual 0 1; OIndex 3 2; OIter 3; OIndex 3 99].
 Example C12_history_nonvacuous :
   along (fun _ => in_text) sinit sample_history = true /\
   fst (srun sinit sample_history) =
-    [VNone; VNone; VNone; VNone; VNone; VNone; VNone; VNone; VBool false; VInt 97;
+    [VNone; VNone; VNone; VNone; VNone; VNone; VNone; VNone; VNone; VNone; VBool true; VNone; VBool true; VInt 97;
      VChars [8364; 97; 72; 8364; 97; 128512; 128512]] /\
   snd (srun sinit sample_history) = Err.
 Proof. vm_compute. auto. Qed.
